@@ -580,6 +580,17 @@ retry:
         continue;
       }
 
+      // compare_nontrivial_key might have acquired a further guard through the entry (for a managed_ptr value that
+      // is stored in a node); that guard only protects the value if the entry was still present afterwards.
+      const auto state3 = bucket.state.load(std::memory_order_relaxed);
+      if (state.version() != state3.version()) {
+        state = state3;
+        goto retry;
+      }
+      if (data_block.load(std::memory_order_acquire) != b) {
+        goto restart;
+      }
+
       result = std::move(acc);
       return true;
     }
@@ -608,6 +619,15 @@ retry:
       }
 
       if (traits::compare_nontrivial_key(acc, key)) {
+        // see above - verify once more that the entry is still present
+        state2 = bucket.state.load(std::memory_order_relaxed);
+        if (state.version() != state2.version()) {
+          state = state2;
+          goto retry;
+        }
+        if (data_block.load(std::memory_order_acquire) != b) {
+          goto restart;
+        }
         result = std::move(acc);
         return true;
       }
